@@ -223,6 +223,11 @@ static uint64_t memory_page_read(vm_mngr_t* vm_mngr, unsigned int my_size, uint6
 			mpn = get_memory_page_from_address(vm_mngr, ad, 1);
 			if (!mpn)
 				return 0;
+			if ((mpn->access & PAGE_READ) == 0){
+				fprintf(stderr, "access to non readable page!! %"PRIX64"\n", ad);
+				vm_mngr->exception_flags |= EXCEPT_ACCESS_VIOL;
+				return 0;
+			}
 			addr = &((unsigned char*)mpn->ad_hp)[ad - mpn->ad];
 			ret |= ((uint64_t)(*((unsigned char*)addr)&0xFF))<<(index);
 			index +=8;
@@ -256,6 +261,7 @@ static void memory_page_write(vm_mngr_t* vm_mngr, unsigned int my_size,
 	struct memory_page_node * mpn;
 	unsigned char * addr;
 	struct memory_breakpoint_info * b;
+	unsigned int i;
 
 	mpn = get_memory_page_from_address(vm_mngr, ad, 1);
 	if (!mpn)
@@ -320,6 +326,18 @@ static void memory_page_write(vm_mngr_t* vm_mngr, unsigned int my_size,
 			fprintf(stderr, "Bad memory access size %d\n", my_size);
 			exit(EXIT_FAILURE);
 			break;
+		}
+		/* Every touched page must be mapped and writable: a faulting
+		 * access must not modify memory */
+		for (i = 0; i < my_size / 8; i++) {
+			mpn = get_memory_page_from_address(vm_mngr, ad + i, 1);
+			if (!mpn)
+				return;
+			if ((mpn->access & PAGE_WRITE) == 0){
+				fprintf(stderr, "access to non writable page!! %"PRIX64"\n", ad + i);
+				vm_mngr->exception_flags |= EXCEPT_ACCESS_VIOL;
+				return;
+			}
 		}
 		while (my_size){
 			mpn = get_memory_page_from_address(vm_mngr, ad, 1);
